@@ -152,7 +152,8 @@ func engineCABI(rc *RunCtx) *Outcome {
 		hdr[8] = 1
 	}
 	if initStates {
-		hdr[12] = 1
+		// the flag travels as one byte: any non-zero value means "initialise"
+		hdr[12] = []int32{1, 1, 1, 2, 4, 128, 255}[w.Choose(7)]
 	}
 	if guardBefore {
 		hdr[13] = 1
